@@ -129,33 +129,44 @@ def f_candidates(F, res):
 
 
 def s_include(F, res):
-    b = F.body(NARROW + "narrow_search_space")
+    """Every constraint a canonical query can state (address, min_amount, refs) narrows the search space: in
+    narrow_search_space - the resolver's own helper functions inlined, awaited ones included - some write of the field that
+    holds the *intersection* of the constraints (role decided by how it is written, see F-CANDIDATES) is fed from, or guarded by
+    a test of, that constraint's field of the criteria.  No method name is involved."""
+    b0 = F.body(NARROW + "narrow_search_space")
+    b = mir.inline_calls(F, b0, want=c04._HELPERS_ALL, depth=3)
     du = mir.DefUse(b)
     cfg = mir.CFG(b)
     CQ = "tx3_resolver::inputs::CanonicalQuery"
-    want = {
-        "include_address_matches": "address",
-        "include_asset_class_matches": "min_amount",
-        "add_ref_matches": "refs",
-    }
-    for meth, fld in want.items():
-        calls = [(bi, t) for bi, t in mir.calls(b) if (t.get("callee") or "") == NARROW + "SearchSpace::" + meth]
+    fields, roles = subset_roles(F)
+    meet = {x for x in fields if roles.get(x) == {"meet"}}
+    sites = []
+    for bi, si, st in mir.stmts(b):
+        if any(q[0] == "f" and q[2] == SS and q[1] in meet for q in st["lhs"]["p"]):
+            sites.append((bi, st))
+    if not sites:
+        raise BrokenCheck("narrow_search_space (helpers inlined) never writes the intersection of the constraints")
+    for fld in ("address", "min_amount", "refs"):
         key = "%snarrow_search_space|%s constraint included" % (NARROW, fld)
-        if not calls:
-            res.add([finding("S-INCLUDE", key, where(b), "the `%s` constraint of the query never narrows the search space (%s is not called)" % (fld, meth))])
-            continue
-        # the subset handed over derives from the corresponding field of the criteria
-        good = False
-        for bi, t in calls:
-            src = mir.provenance(b, du, t["args"][1], transparent_extra=("std::clone::Clone::clone",))
-            txt = " ".join(repr(x) for x in src)
+        good = None
+        for bi, st in sites:
+            data = st["rv"].get("op") or st["rv"].get("pl")
+            txt = " ".join(repr(x) for x in mir.provenance(b, du, data, transparent_extra=("std::clone::Clone::clone",))) if data else ""
+            # through the set-intersection call: its operands
+            for o in (mir.provenance(b, du, data) if data else []):
+                if o.kind == "call":
+                    for a in o.term["args"]:
+                        txt += " " + " ".join(repr(x) for x in mir.provenance(b, du, a, transparent_extra=("std::clone::Clone::clone",)))
             reads = _fields_feeding(b, du, cfg, bi, CQ)
-            if fld in reads or ("." + fld) in txt:
-                good = True
+            # the guard must be specific to this site: a field read that also dominates the first narrowing site of the
+            # function says nothing about a later one, unless it is this field's own first use
+            if ("." + fld) in txt or fld in reads:
+                good = (bi, st)
+                break
         if good:
-            res.add([ok("S-INCLUDE", key, where(b, calls[0][1]["line"]), "%s(..) is fed from criteria.%s" % (meth, fld))])
+            res.add([ok("S-INCLUDE", key, where(b0, good[1]["line"]), "a write of the intersection field is fed from / guarded by criteria.%s" % fld)])
         else:
-            res.add([finding("S-INCLUDE", key, where(b, calls[0][1]["line"]), "%s is not fed from criteria.%s" % (meth, fld))])
+            res.add([finding("S-INCLUDE", key, where(b0), "the `%s` constraint of the query never narrows the search space (no write of the intersection of the constraints depends on criteria.%s)" % (fld, fld))])
     # CanonicalQuery::try_from reads all InputQuery fields
     f = F.fn("<tx3_resolver::inputs::CanonicalQuery as std::convert::TryFrom<tx3_tir::model::v1beta0::InputQuery>>::try_from")
     IQ = "tx3_tir::model::v1beta0::InputQuery"
@@ -195,11 +206,13 @@ def _fields_feeding(b, du, cfg, call_bb, adt):
 
 def s_collateral(F, res):
     b, allb = c04.bodies_of(F, c04.SELP + "select_collateral")
+    # the selector's own helper methods inlined: what matters is the set that reaches the coin-selection strategy
+    b = mir.inline_calls(F, b, want=c04._HELPERS_ALL, depth=2)
     du = mir.DefUse(b)
-    pf = [(bi, t) for bi, t in mir.calls(b) if (t.get("callee") or "").endswith("InputSelector::<'a, S>::pick_from_set")]
+    pf = [(bi, t) for bi, t in mir.calls(b) if (t.get("trait") or "").endswith("::CoinSelection") and t.get("method") in ("pick_many", "pick_single")]
     key = c04.SELP + "select_collateral|only pure-lovelace UTxOs are eligible"
     if not pf:
-        raise BrokenCheck("select_collateral no longer calls pick_from_set")
+        raise BrokenCheck("select_collateral (helpers inlined) never reaches the coin-selection strategy")
     good = True
     for bi, t in pf:
         src = mir.provenance(b, du, t["args"][0])
